@@ -70,13 +70,22 @@ PRELUDE = """(define-fun rmin ((a Real) (b Real)) Real (ite (<= a b) a b))
 (define-fun rceil ((a Real)) Real (- (to_real (to_int (- a)))))
 """
 
-def defs(r):
-    """SMT definitions for vars (Int grid) and the term DAG of run r"""
+def num(x):
+    fr = Fraction(x)
+    t = f"(/ {abs(fr.numerator)}.0 {fr.denominator}.0)"
+    return f"(- {t})" if fr < 0 else t
+
+def defs(r, real=False):
+    """SMT definitions for vars (Int grid, or plain Real ranges) and the term DAG of run r"""
     s = ""
     for k, (lo, hi, sh, _v) in enumerate(r["vars"]):
         sc = 2 ** sh
-        s += f"(declare-const k{k} Int)\n(assert (and (>= k{k} {int(lo*sc)}) (<= k{k} {int(hi*sc)})))\n(define-fun v{k} () Real (/ (to_real k{k}) {sc}.0))\n".replace("(>= k%d -" % k, "(>= k%d (- " % k if lo < 0 else "(>= k%d -" % k)
-        if lo < 0: s = s.replace(f"(>= k{k} (- {abs(int(lo*sc))})", f"(>= k{k} (- {abs(int(lo*sc))}))")
+        if real:
+            s += f"(declare-const v{k} Real)\n(assert (and (>= v{k} {num(lo)}) (<= v{k} {num(hi)})))\n"
+        else:
+            ilo, ihi = int(lo * sc), int(hi * sc)
+            f = lambda n: f"(- {abs(n)})" if n < 0 else str(n)
+            s += f"(declare-const k{k} Int)\n(assert (and (>= k{k} {f(ilo)}) (<= k{k} {f(ihi)})))\n(define-fun v{k} () Real (/ (to_real k{k}) {sc}.0))\n"
     for i in sorted(r["terms"]):
         ex, op, a = r["terms"][i]
         t = lambda x: f"t{x}"
@@ -106,7 +115,7 @@ def path_key(r):
         return memo[i]
     return tuple((tk, op, h(a), h(b)) for (tk, op, a, b) in r["path"]) + (r["status"].split()[0],)
 
-def explore(runner, z3, doc, vars0, check, cap=64):
+def explore(runner, z3, doc, vars0, check, cap=64, real=False):
     """generational search; check(r) -> list of (name, smt_negated_property) to be unsat under path"""
     work = [vars0]; seen = {}; stats = dict(runs=0, paths=0, queries=0, violations=[], inexact_branches=0, exhaustive=True)
     tried_prefix = set()
@@ -117,13 +126,13 @@ def explore(runner, z3, doc, vars0, check, cap=64):
         key = path_key(r)
         if key in seen: continue
         seen[key] = r; stats["paths"] += 1
-        d = defs(r)
+        d = defs(r, False); dprop = defs(r, real)
         pc = [cond_smt(c) for c in r["path"]]
         for (tk, op, a, b) in r["path"]:
             if r["terms"][a][0] == "I" or r["terms"][b][0] == "I": stats["inexact_branches"] += 1
         # property on this path
         for name, negprop in check(r):
-            ans, model = z3.ask(d + "".join(f"(assert {c})\n" for c in pc) + f"(assert {negprop})\n", [f"k{k}" for k in range(len(vs))])
+            ans, model = z3.ask(dprop + "".join(f"(assert {c})\n" for c in pc) + f"(assert {negprop})\n", None if real else [f"k{k}" for k in range(len(vs))])
             stats["queries"] += 1
             if ans != "unsat": stats["violations"].append((name, ans, model, r["status"]))
         # negate each branch
